@@ -14,6 +14,7 @@ Three layers:
      and messages for marker strings planted at every string leaf.
 -/
 import KinModel.Gen.ReasonSites
+import KinModel.Gen.VisitSites
 import KinModel.Schema.Events
 namespace KinModel.Schema
 
@@ -109,36 +110,36 @@ theorem checkEvs_clean (cs : List Check) (h : ∀ c ∈ cs, c.2.1.clean = true) 
     have : checkEvs (c :: cs) = chk c.1 c.2.1 c.2.2 ++ checkEvs cs := by simp [checkEvs]
     rw [this, cleanL_append, chk_clean _ _ _ (h c (by simp)), ih (fun c' hc' => h c' (by simp [hc']))]; rfl
 
-theorem ownEvs_clean (env : Env) (kw : Kw) (p : List (String × S)) (v : J) (ch : List Ev) (hch : cleanL ch = true) :
-    cleanL (ownEvs env kw p v ch) = true := by
+theorem ownEvsQ_clean (env : Env) (kw : Kw) (p : List (String × S)) (v q : J) (ch : List Ev) (hch : cleanL ch = true) :
+    cleanL (ownEvsQ env kw p v q ch) = true := by
   cases v with
-  | null => simp [ownEvs, cleanL, Ev.clean, Err.clean, nullErr, Frag.fromValue]
+  | null => simp [ownEvsQ, cleanL, Ev.clean, Err.clean, nullErr, Frag.fromValue]
   | bool b => exact chk_clean _ _ _ (by simp [typeErr, here, Err.clean, Frag.fromValue])
-  | num q =>
+  | num x =>
     apply checkEvs_clean
     intro c hc
     simp only [numChecks, List.mem_cons, List.mem_nil_iff, or_false] at hc
     rcases hc with rfl | rfl | rfl | rfl | rfl | rfl | rfl
     · simp only; split <;> simp [typeErr, here, Err.clean, Frag.fromValue]
-    all_goals simp [here, Err.clean, Frag.fromValue]
+    all_goals simp [here, hereSoft, Err.clean, Frag.fromValue]
   | str x =>
     apply checkEvs_clean
     intro c hc
     simp only [strChecks, List.mem_cons, List.mem_nil_iff, or_false] at hc
     rcases hc with rfl | rfl | rfl | rfl | rfl | rfl <;>
-      simp [typeErr, here, patCompileErr, Err.clean, Frag.fromValue]
+      simp [typeErr, here, hereSoft, patCompileErr, Err.clean, Frag.fromValue]
   | arr xs =>
-    simp only [ownEvs, arrEvs, cleanL_append, hch, Bool.and_true]
+    simp only [ownEvsQ, arrEvsQ, cleanL_append, hch, Bool.and_true]
     apply checkEvs_clean
     intro c hc
-    simp only [arrChecks, List.mem_cons, List.mem_nil_iff, or_false] at hc
+    simp only [arrChecksQ, List.mem_cons, List.mem_nil_iff, or_false] at hc
     rcases hc with rfl | rfl | rfl | rfl <;> simp [typeErr, here, Err.clean, Frag.fromValue]
   | obj kvs =>
-    simp only [ownEvs, objEvs, cleanL_append, hch, Bool.and_true, Bool.and_eq_true]
+    simp only [ownEvsQ, objEvsQ, cleanL_append, hch, Bool.and_true, Bool.and_eq_true]
     refine ⟨⟨?_, ?_⟩, chk_clean _ _ _ (by simp [roErr, Err.clean])⟩
     · apply checkEvs_clean
       intro c hc
-      simp only [objChecks, List.mem_cons, List.mem_nil_iff, or_false] at hc
+      simp only [objChecksQ, List.mem_cons, List.mem_nil_iff, or_false] at hc
       rcases hc with rfl | rfl | rfl <;> simp [typeErr, here, Err.clean, Frag.fromValue]
     · apply checkEvs_clean
       intro c hc
@@ -146,13 +147,16 @@ theorem ownEvs_clean (env : Env) (kw : Kw) (p : List (String × S)) (v : J) (ch 
       obtain ⟨k, _, rfl⟩ := hc
       simp [mark, here, Err.clean, Frag.fromValue]
 
+theorem ownEvs_clean (env : Env) (kw : Kw) (p : List (String × S)) (v : J) (ch : List Ev) (hch : cleanL ch = true) :
+    cleanL (ownEvs env kw p v ch) = true := ownEvsQ_clean env kw p v v ch hch
+
 theorem oneOfReason_clean (subs : List (List Ev)) : (oneOfReason subs).all (fun f => !f.fromValue) = true := by
   unfold oneOfReason; split <;> simp [Frag.fromValue]
 
 theorem discEvs_clean (kw : Kw) (v : J) : cleanL (discEvs kw v) = true := by
   unfold discEvs
   cases discCheck kw v <;>
-    simp [cleanL, Ev.clean, Err.clean, discMissingErr, discNotStringErr, discUnmappedErr, mark, Frag.fromValue]
+    simp [cleanL, Ev.clean, Err.clean, discMissingErr, discNotStringErr, discUnmappedErr, mark, here, Frag.fromValue]
 
 theorem evCombine_clean (env : Env) (kw : Kw) (a b c : List S) (p : List (String × S)) (sc : Bool) (v : J)
     (notEvs : List Ev) (oneSubs anySubs allSubs : List (List Ev)) (childEvs : List Ev)
@@ -329,6 +333,29 @@ theorem reported_reasons_value_free (m : Mode) (env : Env) (s : S) (v : J) :
     cases hc : collectL (events env s v) with
     | nil => simp [Res.errs]
     | cons a b => simp only [Res.errs]; intro e he; exact key e (h2 e (by rw [hc]; exact he))
+  | ffmulti => cases (runL Mode.ffmulti.policy (events env s v)).1 <;> simp [Res.errs]
+
+/-! ### the second sentence: messages assembled from reasons — the customizer must reach every schema visit
+
+`SchemaError.Error()` returns the customizer's text when one is attached, and the attachment is made by the visitor from
+`settings.customizeMessageError`; a VisitJSON call of openapi3filter that is not handed
+`SetSchemaErrorMessageCustomizer(options.customSchemaErrorFunc)` renders the default text (schema and VALUE dump) instead.
+Table Gen/VisitSites lists every such call with the options that dominate it. -/
+
+/-- the rule could read every call site -/
+theorem visit_sites_readable : Gen.visitSites.all (fun r => !r.opts.contains "unrecognised") = true := by decide
+
+/-- every VisitJSON call of openapi3filter (parameters, request body, response headers, response body) receives the
+configured schema-error function, before the call, under the only condition that one is configured -/
+theorem every_visit_gets_customizer :
+    Gen.visitSites.all (fun r => r.opts.contains "SetSchemaErrorMessageCustomizer=if options.customSchemaErrorFunc != nil") = true := by
+  decide
+
+/-- the call sites are the four the differential run exercises (parameter, request body, response body, response header) -/
+theorem visit_sites_are_the_exercised_ones :
+    Gen.visitSites.map (fun r => (r.fn, r.via)) =
+      [("ValidateParameter", ""), ("ValidateRequestBody", ""), ("ValidateResponse", ""), ("validateResponseHeader", "ValidateResponse")] := by
+  decide
 
 /-- the invariant is not vacuous: a fragment that does come from the value is detected -/
 example : (Err.clean { field := "x", reason := [.lit "bad value ", .valueStr "secret"] }) = false := by decide
